@@ -142,6 +142,8 @@ type Node struct {
 	Tests    []TestSpec
 	NPosts   int
 	PostErr  int // 0: none; i>0: post number i returns an error (1-based); negative: returns *ZogIssue
+	PostWrap bool // the error returned by post number PostErr is not a ZogIssue but wraps one (%w)
+	PostMut  bool // the first post changes the value it is given
 	Elem     *Node
 	Fields   []*Field
 	Pos      string // position label in the skeleton
@@ -202,7 +204,11 @@ func (n *Node) Describe() string {
 		}
 	}
 	for i := 0; i < n.NPosts; i++ {
-		if n.PostErr == i+1 {
+		if n.PostErr == i+1 && n.PostWrap {
+			sb.WriteString(".PostTransform(err wrapping a zogissue)")
+		} else if n.PostMut && i == 0 {
+			sb.WriteString(".PostTransform(changes the value)")
+		} else if n.PostErr == i+1 {
 			sb.WriteString(".PostTransform(err)")
 		} else if n.PostErr == -(i + 1) {
 			sb.WriteString(".PostTransform(zogissue)")
@@ -386,6 +392,32 @@ func (r *Recorder) Strings() []string {
 // ---------------------------------------------------------------------------
 // building the real zog schema through the public API
 
+// mutateValue changes the value behind a PostTransform's pointer argument (never to a zero value).
+func mutateValue(ptr any) {
+	switch p := ptr.(type) {
+	case *string:
+		*p = strings.ToUpper(*p) + "!"
+	case *int:
+		*p = *p*2 + 1
+	case *float64:
+		*p = *p + 0.5
+	case *bool:
+		*p = !*p
+	case *time.Time:
+		*p = p.Add(time.Hour)
+	default:
+		v := reflect.ValueOf(ptr)
+		if v.Kind() == reflect.Pointer && !v.IsNil() && v.Elem().Kind() == reflect.Slice {
+			s := v.Elem()
+			for i, j := 0, s.Len()-1; i < j; i, j = i+1, j-1 {
+				a, b := s.Index(i).Interface(), s.Index(j).Interface()
+				s.Index(i).Set(reflect.ValueOf(b))
+				s.Index(j).Set(reflect.ValueOf(a))
+			}
+		}
+	}
+}
+
 type errPost struct{ who string }
 
 func (e errPost) Error() string { return "post-error:" + e.who }
@@ -415,7 +447,13 @@ func BuildZog(n *Node, r *Recorder) z.ZogSchema {
 	mkPost := func(i int) z.PostTransform {
 		return func(ptr any, ctx z.Ctx) error {
 			r.rec(who(fmt.Sprintf("post%d", i+1)), ptr, ctx)
+			if n.PostMut && i == 0 {
+				mutateValue(ptr)
+			}
 			if n.PostErr == i+1 {
+				if n.PostWrap {
+					return fmt.Errorf("%s: %w", who(fmt.Sprintf("post%d", i+1)), &z.ZogIssue{Code: "inner_issue", Path: "inner.path", Message: "issue of a nested execution"})
+				}
 				return errPost{who(fmt.Sprintf("post%d", i+1))}
 			}
 			if n.PostErr == -(i + 1) {
